@@ -17,7 +17,7 @@ def _nontrivial(t):
 def run(tier):
     rnd = random.Random(common.seed() + 6)
     n = 120 if tier == 'quick' else 2500
-    jobs = ec.random_jobs(rnd, n, label='dup', dups=2, gen_kw=dict(p_sub=0.25, p_items=0.1))
+    jobs = ec.random_jobs(rnd, n, label='dup', dups=2, gen_kw=dict(partial_joins=False, p_sub=0.25, p_items=0.1))
     jobs += ec.catalogue_jobs(policies=('random', 'results_first'), seeds=(1,), dups=2)
     from harness.checks import c06_executor
     return ec.run_property(PID, tier, jobs,
